@@ -481,6 +481,10 @@ def binop(op, a, b, ctx=None):
     if (ta == 'bytes') != (tb == 'bytes') or (ta == 'str') != (tb == 'str'):
         if op == 'Mult' and ta in ('bytes', 'str') and const_int(b) is not None and is_concrete(a):
             return a * const_int(b)
+        if op == 'Mult' and ((ta in ('bytes', 'str') and tb in ('int', 'bool')) or (tb in ('bytes', 'str') and ta in ('int', 'bool'))):
+            raise Unsupported('repetition of a %s by a symbolic count is not modelled' % (ta if ta in ('bytes', 'str') else tb))
+        if op == 'Mod' and ta in ('bytes', 'str'):
+            raise Unsupported('%%-formatting of a symbolic %s is not modelled' % ta)
         return _raise(ctx, 'TypeError', 'bad operand types %s %s' % (ta, tb))
     if ta in ('obj', 'other', 'dict', 'set') or tb in ('obj', 'other', 'dict', 'set'):
         raise Unsupported('binop %s on %s,%s' % (op, ta, tb))
@@ -740,7 +744,17 @@ def seq_slice_term(t, lo, hi, sort=BytesSort):
     r = z3.SubSeq(t, lo_c, n)
     if sort == BytesSort:
         set_len_term(r, n)
-    SLICE_INFO[r.get_id()] = (t, z3.simplify(lo_c), n)
+    lo_s = z3.simplify(lo_c)
+    # two slices of the same string that meet (t[:k] and t[k:]) concatenate to the string: the instantiated lemma is queued,
+    # the sequence solver does not find it on its own within the budget
+    for (b2, lo2, n2, r2) in list(SLICE_INFO.values()):
+        if b2.eq(t):
+            first = (r2, lo2, n2, r, lo_s, n) if z3.is_int_value(lo2) and lo2.as_long() == 0 else \
+                    ((r, lo_s, n, r2, lo2, n2) if z3.is_int_value(lo_s) and lo_s.as_long() == 0 else None)
+            if first is not None:
+                ra, la, na, rb, lb, nb = first
+                XOR8_FACTS.append((r, z3.Implies(z3.And(z3.simplify(la + na) == lb, z3.simplify(lb + nb) == L), z3.Concat(ra, rb) == t)))
+    SLICE_INFO[r.get_id()] = (t, lo_s, n, r)
     _KEEP.append(r)
     return r
 
